@@ -135,9 +135,45 @@ func runBwCap(c *ctx) {
 	}
 }
 
+// records whose key nearly fills a block while their payload is tiny: the index entry of such a
+// block (key + block position) is longer than the record itself.  The pinned writer accepted every
+// record and then panicked in Close ("fail on fresh block"); it must refuse the record instead.
+func indexEntryCases() []tableCase {
+	var out []tableCase
+	for _, un := range []bool{false, true} {
+		var t tableCase
+		t.cfg = tcfg{BlockSize: 256, Unaligned: un}
+		t.min, t.max = 1, 1
+		for i, ch := range "abcde" {
+			n := 243
+			if i == 0 {
+				n = 219 // the first block also carries the 24-byte file header
+			}
+			name := "refs/heads/" + string(ch) + strings.Repeat("x", n-12)
+			t.refs = append(t.refs, reftable.RefRecord{RefName: name, UpdateIndex: 1})
+		}
+		out = append(out, t)
+	}
+	var l tableCase
+	l.cfg = tcfg{BlockSize: 256, Unaligned: true}
+	l.min, l.max = 1, 1
+	for i, ch := range "abc" {
+		n := 235
+		if i == 0 {
+			n = 211
+		}
+		l.logs = append(l.logs, reftable.LogRecord{RefName: "refs/heads/" + string(ch) + strings.Repeat("y", n-12), UpdateIndex: 1})
+	}
+	return append(out, l)
+}
+
 func runTables(c *ctx, which string) error {
 	if which == "c01" || which == "c14" {
 		runBwCap(c)
+		for _, t := range indexEntryCases() {
+			t := t
+			runTableCase(c, &t, []string{"sr:"}, map[string]int{})
+		}
 	}
 	n := 250
 	if c.thorough() {
